@@ -379,6 +379,10 @@ func genGraph(r *rand.Rand, s *gSchema, p *profile) *gGraph {
 				kind = "lres"
 			} else if x < 5 && g.any {
 				kind = "alist"
+			} else if bt := s.byID[t.of.base()]; x < 7 && t.of.kind == 'n' && bt.kind != "leaf" && bt.kind != "enum" {
+				// a typed Go slice of objects ([]*T when all members share a Go type): walked by reflection,
+				// or through the AnyResolver when one is installed
+				kind = "tlist"
 			}
 			out := []sx.S{kind}
 			for i := 0; i < n; i++ {
